@@ -161,6 +161,16 @@ def check_C15(run):
     return run.finish(rule="structurally nonsingular matrices incl. zero diagonals and singular leading blocks through ?gsisx over every drop-rule combination, tolerance, fill factor, norm, MILU variant, row permutation, Trans, ordering, tuning; discrete clauses on every run, exact solve clause where nothing is scaled, complete-LU clauses when nothing is dropped or replaced; the same under ASan+UBSan")
 
 
+def check_C17(run):
+    run.model_check("Match_3", "MC_Match.tla", "MC_Match_3.cfg", coverage=False)
+    if run.tier != "quick":
+        run.model_check("Match_4", "MC_Match.tla", "MC_Match_4.cfg", coverage=False)
+    g = Gen(run.seed * 1000 + 17)
+    types = {"d": 1.0, "s": 0.5, "z": 0.5, "c": 0.4} if run.tier == "quick" else FULL_TYPES
+    run.conform("ldperm", F.fam_ldperm(g, "C17", sizes(run, 600, 6000), types, exhaustive3=True), ["C17."])
+    return run.finish(rule="every 3x3 pattern and random patterns of order 1..5 with weights +-2^e (ties, zero diagonals, structurally singular ones included) and random mantissas, real and complex, single and double: matching, optimality (brute force over all perfect matchings), dual scalings, untouched arrays")
+
+
 def check_C18(run):
     objs, st, out = vlib.tlc_generate("C18_screen", "SluScreen.tla", "SluScreen.cfg")
     if "No error has been found" not in out:
